@@ -40,6 +40,7 @@ func C11(ctx *core.Ctx, r *core.Report) {
 	c11NotSupported(ctx, r)
 	c11DeviateKindsIndependent(ctx, r)
 	c11InitializeMerges(ctx, r)
+	r.Count("instances:memo-key-complete(tables found)", memoKeyComplete(ctx, r, scopeFuncs(ctx, "meta", "feature_set.go", "core.go", "resolver.go")))
 }
 
 // originOf: strip clones/conversions: d := orig.clone(target).(Definition) → orig.
@@ -413,6 +414,39 @@ func c11InitializeMerges(ctx *core.Ctx, r *core.Report) {
 			"Initialize can return success without adding this module's features to the enabled set: the features of every module but the first are off, whatever the configuration says")
 	}
 	r.Floor("initialize-merges-every-module", n, 1)
+	// a store that replaces the whole enabled set throws away what the modules
+	// initialised before this one contributed, unless it runs only while the set
+	// is still nil
+	core.Instrs(f, func(b *ssa.BasicBlock, in ssa.Instruction) {
+		st, ok := in.(*ssa.Store)
+		if !ok || !isEnabledAddr(st.Addr) || core.IsNilConst(st.Val) {
+			return
+		}
+		guarded := false
+		for _, pc := range core.PathConds(b) {
+			bo, ok := pc.V.(*ssa.BinOp)
+			if !ok || (bo.Op != token.EQL && bo.Op != token.NEQ) {
+				continue
+			}
+			var other ssa.Value
+			if core.IsNilConst(bo.Y) {
+				other = bo.X
+			} else if core.IsNilConst(bo.X) {
+				other = bo.Y
+			} else {
+				continue
+			}
+			u, ok := core.Strip(other).(*ssa.UnOp)
+			if !ok || u.Op != token.MUL || !isEnabledAddr(u.X) {
+				continue
+			}
+			if (bo.Op == token.EQL) == pc.True {
+				guarded = true
+			}
+		}
+		r.Ob("initialize-merges-every-module", "meta.supportedFeatures.Initialize/replace-enabled", ctx.Pos(st.Pos()), guarded,
+			"the enabled set is replaced, not merged into, also when it already holds the features of the modules initialised before this one: after an import is initialised the importing module's own features are gone (its if-feature nodes vanish, its `not` nodes appear)")
+	})
 	if len(merge) == 0 {
 		r.Fatalf("supportedFeatures.Initialize no longer writes the enabled set")
 	}
